@@ -43,6 +43,9 @@ func (w *world) snapshot() string {
 			h := sha256.Sum256(f.Data)
 			fmt.Fprintf(&sb, "%s|%v|%d|%d|%v|%s\n", k, f.Mode, len(f.Data), f.ModTime.UnixNano(), f.Sys, hex.EncodeToString(h[:8]))
 		}
+		for _, n := range w.sibNames() {
+			fmt.Fprintf(&sb, "~sibling-host-dir/%s|present\n", n)
+		}
 		return sb.String()
 	}
 	snapDir(&sb, w.base, ".")
@@ -169,6 +172,9 @@ func (w *world) fingerprint() []byte {
 			buf = binary.LittleEndian.AppendUint32(buf, uint32(f.Mode))
 			buf = binary.LittleEndian.AppendUint64(buf, uint64(f.ModTime.UnixNano()))
 		}
+		for _, n := range w.sibNames() {
+			buf = append(append(buf, 3), n...)
+		}
 		w.fpBuf = buf
 		return buf
 	}
@@ -203,6 +209,23 @@ func knownPaths(base, snap string) []string {
 	for _, l := range strings.Split(strings.TrimSuffix(snap, "\n"), "\n") {
 		k, _, _ := strings.Cut(l, "|")
 		o = append(o, filepath.Join(base, k))
+	}
+	return o
+}
+
+// sibNames: entries of the host directory that the discarded writable siblings of a MapFS mount point at
+// (must stay empty: the guest was given the MapFS, not that directory).
+func (w *world) sibNames() []string {
+	if w.sibDir == "" {
+		return nil
+	}
+	ents, err := os.ReadDir(w.sibDir)
+	if err != nil {
+		return []string{"<directory gone: " + err.Error() + ">"}
+	}
+	var o []string
+	for _, e := range ents {
+		o = append(o, e.Name())
 	}
 	return o
 }
